@@ -70,6 +70,13 @@ def roundtrip_execute(case, stats):
     for n, _ in FIELDS:
         eq(int(getattr(back, n)), f[n], f"roundtrip:field", f"field {n}")
     eq(bytes(back.info), info, "roundtrip:info", "info")
+    # the same blob under another private key of the same size must be rejected - also right after a successful
+    # decryption with the matching key (no state may leak between calls)
+    if case["key"] == "rsa_1024_a":
+        r2 = lib(c2.decrypt_metadata, blob, keys.rsa("rsa_1024_b"), allow=(ValueError,), what="decrypt_metadata(blob, other key)")
+        check(isinstance(r2, Raised), "decrypt:other_key_after_success", f"a blob encrypted for key A decrypted under key B after a successful decryption with key A: {r2!r}")
+        back2 = lib(c2.decrypt_metadata, blob, priv, what="decrypt_metadata (again)")
+        eq(int(back2.bid), f["bid"], "roundtrip:repeat", "second decryption with the matching key")
     # independent check of the plaintext layout: decrypt with pycryptodome directly
     from Crypto.Cipher import PKCS1_v1_5
 
